@@ -661,6 +661,7 @@ type bvPath struct {
 	Done   bool
 	Undec  []string
 	Stores []string // receiver fields assigned
+	Assume map[string]byte // lane bits fixed by the branch conditions of this path ('0' / '1')
 }
 
 func (p *bvPath) clone() *bvPath {
@@ -673,6 +674,12 @@ func (p *bvPath) clone() *bvPath {
 		n.Recv[k] = v
 	}
 	n.Ret = p.Ret
+	if p.Assume != nil {
+		n.Assume = map[string]byte{}
+		for k, v := range p.Assume {
+			n.Assume[k] = v
+		}
+	}
 	return n
 }
 
@@ -897,6 +904,21 @@ func (bi *bvInterp) stmt(p *bvPath, s ast.Stmt) []*bvPath {
 		// a condition that is a single known lane bit picks the branch per value of that bit
 		pt.Conds = append(pt.Conds, cs)
 		pf.Conds = append(pf.Conds, "!("+cs+")")
+		if cond.Opaque == "" && cond.Fields == nil && cond.BV.W == 1 && cond.BV.Bits[0].K == 's' {
+			// the branch fixes one lane bit: remember it, and specialise a boolean receiver field
+			for _, q := range []*bvPath{pt, pf} {
+				if q.Assume == nil {
+					q.Assume = map[string]byte{}
+				}
+			}
+			key := cond.BV.Bits[0].String()
+			pt.Assume[key], pf.Assume[key] = '1', '0'
+			if f, ok := bi.recvField(x.Cond); ok {
+				one, zero := constBV(1, 1, false), constBV(0, 1, false)
+				one.IsBool, zero.IsBool = true, true
+				pt.Recv[f], pf.Recv[f] = one, zero
+			}
+		}
 		bi.assume(pt, x.Cond, true)
 		bi.assume(pf, x.Cond, false)
 		_ = cond
@@ -1444,4 +1466,14 @@ func bvKeys(m map[string]BV) []string {
 	}
 	sort.Strings(ks)
 	return ks
+}
+
+// resolve applies the path's branch assumptions to a lane bit.
+func (p *bvPath) resolve(b Bit) Bit {
+	if b.K == 's' && p.Assume != nil {
+		if v, ok := p.Assume[b.String()]; ok {
+			return Bit{K: v}
+		}
+	}
+	return b
 }
